@@ -130,6 +130,7 @@ fn concurrent_crash(tape: &mut Tape, ctx: &RunCtx) -> RunOut {
         preexisting: true,
         clock_small: true,
         sampled_faults: false,
+        clock_jump: false,
         debris: true,
         focus: 4,
     };
